@@ -4,7 +4,7 @@
    py/props/c15.py on every run); Spec/C15.v holds the independent reader `decode`, the reference watch-list
    normalisation `first_occ`, the reference history `hist` and the pre-edge values `samples_of`. *)
 From V Require Import Base.Bits Model.SimKernel Model.Waveform Spec.C15.
-From V Require Import Proofs.C15.Digits Proofs.C15.Row Proofs.C15.Watch Proofs.C15.Kernel Proofs.C15.Wavedrom Proofs.C15.Main.
+From V Require Import Proofs.C15.Digits Proofs.C15.Row Proofs.C15.Watch Proofs.C15.Kernel Proofs.C15.Wavedrom Proofs.C15.EndToEnd Proofs.C15.Main.
 
 
 (* ---- watch list: ports stand for their wire, repeated entries are merged by wire identity, order of
@@ -108,6 +108,29 @@ Theorem C15_clear : forall ws entries ops,
   (entries <> [] -> wf_wavedrom ws r = ([80; 120], map (fun _ => ([120; 120], [])) entries)).
 Proof. exact thm_C15_clear. Qed.
 
+(* ---- capstone: a fresh recorder watching `entries` inside the kernel; after clk(n), get_wavedrom has a clock
+   row of n cycles and one row per entry, and row i reads back (independent decoder) as the n values the entry's
+   wire carried going into each edge.  The range hypothesis is C06_invariant (every wire value fits its width). *)
+Theorem C15_end_to_end :
+  forall (St : Type) (getR : St -> dict) (setR : St -> dict -> St),
+    (forall st dd, getR (setR st dd) = dd) ->
+  forall (d : design St) (k : nat) entries (n : nat) (s : state St),
+    let r0 := wf_init (widths d) entries in
+    nth_error (seqs d) k = Some (recorder_leaf getR setR (wf_uniq r0)) ->
+    listed_once d k -> ungated d k -> entries <> [] ->
+    (forall t w, fits (nth w (widths d) 0) (pre_edge d (propagated d s) w t)) ->
+    recS getR k s = Some (wf_getDict r0) ->
+    exists dd', recS getR k (clk d n s) = Some dd' /\
+      (let r' := {| wf_wires := wf_wires r0; wf_format := wf_format r0; wf_uniq := wf_uniq r0; wf_data := dd' |} in
+      decode_clock (fst (wf_wavedrom (widths d) r')) = Some n /\
+      length (snd (wf_wavedrom (widths d) r')) = length entries /\
+      forall i e, nth_error entries i = Some e ->
+        exists rw, nth_error (snd (wf_wavedrom (widths d) r')) i = Some rw
+          /\ dict_get dd' (entry_wire e) = Some (samples_of d (propagated d s) (entry_wire e) n)
+          /\ decode (nth (entry_wire e) (widths d) 0) rw = Some (samples_of d (propagated d s) (entry_wire e) n)
+          /\ length (fst rw) = (n + 2)%nat).
+Proof. intros St getR setR Hgs d k entries n s r0 Hleaf. exact (end_to_end getR setR Hgs d k entries Hleaf n s). Qed.
+
 (* non-vacuity of the guarded statements: a concrete recorder in a concrete design *)
 Example C15_nonvacuous :
   let ws := [8; 1; 8] in
@@ -131,3 +154,4 @@ Print Assumptions C15_roundtrip_unguarded_refuted.
 Print Assumptions C15_span.
 Print Assumptions C15_wavedrom_decodes.
 Print Assumptions C15_clear.
+Print Assumptions C15_end_to_end.
